@@ -251,7 +251,8 @@ def finish(prop, tier, seed, level, res, rule, t0, extra_cov=None, assumptions=N
 def generic_check(prop, cfg, tier, seed, ncases_override=None):
     t0 = time.time()
     n = ncases_override or cfg["cases"][1 if tier == "thorough" else 0]
-    res = run_cases(prop, cfg["variant"], n, tier, seed, timeout=cfg.get("timeout", 120), chunk=cfg.get("chunk", 20),
+    # thorough cases are larger (grids up to 4x the points) and run beside 15 other workers: the watchdog waits 4x longer
+    res = run_cases(prop, cfg["variant"], n, tier, seed, timeout=cfg.get("timeout", 120) * (4 if tier == "thorough" else 1), chunk=cfg.get("chunk", 20),
                     extra_args=cfg.get("args", ()), extra_env=cfg.get("env"))
     return finish(prop, tier, seed, cfg.get("level", "exploration"), res, cfg["rule"], t0, assumptions=cfg.get("assumptions"),
                   min_nontrivial=cfg.get("min_nontrivial", 2))
